@@ -91,6 +91,8 @@ CONFIGS = {
     'fresh': dict(integrator='IAS15', steps=0),
     'whfast_var': dict(integrator='WHFAST', steps=1, set={'dt': 0.01}, var=1),
     'ias15_var': dict(integrator='IAS15', steps=1, var=1),
+    # the particle number dropped after the integrator allocated its arrays (merge / remove): N_allocated > 3 N at the save point
+    'ias15_removed': dict(integrator='IAS15', steps=2, remove_last_after=1, twin_add=1),
 }
 
 def resolve_value(L, v):
@@ -108,6 +110,7 @@ def build_engine_state(I, cfg, n=2):
         I.call('@reb_simulation_add_variation_1st_order', [sim.ptr, 0xffffffff])      # sret? returns struct by value -> see below
     for _ in range(cfg.get('steps', 0)):
         I.call('@reb_simulation_step', [sim.ptr])
+    if cfg.get('remove_last_after'): I.call('@reb_simulation_remove_particle', [sim.ptr, sim.get('N') - 1, 1])
     return sim
 
 def build_native_state(nat, cfg, n=2):
@@ -119,6 +122,7 @@ def build_native_state(nat, cfg, n=2):
     if cfg.get('var'):
         ns.call('reb_simulation_add_variation_1st_order', ctypes.c_int(-1), restype=ctypes.c_int)
     for _ in range(cfg.get('steps', 0)): ns.call('reb_simulation_step')
+    if cfg.get('remove_last_after'): ns.call('reb_simulation_remove_particle', ctypes.c_int(ns.get('N') - 1), ctypes.c_int(1), restype=ctypes.c_int)
     return ns
 
 # ------------------------------------------------------------------------------------------ symbolisation
